@@ -15,7 +15,7 @@ definition of this file is part of the trusted reading, none is generated):
   encoder is trusted, the harness lexes the real bytes); `x.Text('f', -1)` of a `*big.Float` is
   the token `.num (Num.textF x)`; `MarshalType(ty)` is the rendering of the hand-written
   `Ty.toJson ty`; `json.Marshal` of a capsule's payload is `.unmodelled`.  `render` is the
-  token list of a `Json` tree, `assemble` reads a token list back (`assemble_render`).
+  token list of a `Json` tree.
   Write errors of `bytes.Buffer` do not exist (it panics on out-of-memory only).
 * `cty.Value` is the model's `Value`; its accessors answer as the Go methods do, a Go panic
   (wrong kind, marked, unknown, null) is `Res.panic`.  `cty.StringVal(k)` does not normalise here:
@@ -227,7 +227,7 @@ def elementIterator (env : JEnv) (v : Value) : Res Iter :=
 mutual
 def psize : Payload → Nat
   | .seq vs => psizeL vs + 1
-  | .smap _ vs => psizeL vs + 1
+  | .smap _ vs => psizeL vs + 2
   | .sset _ vs => psizeL vs + 1
   | .marked _ r => psize r + 1
   | _ => 1
